@@ -18,7 +18,7 @@ import vplib as V
 import asmgen as G
 
 SPEC = os.path.join(V.SPEC, "Asm")
-CLASSES = ["undefsym", "undefmacro", "undefseg", "labelredef", "constredef", "illegalmode", "immrange", "branchrange", "arity", "malformed", "unclosed"]
+CLASSES = ["undefsym", "undefmacro", "undefseg", "labelredef", "constredef", "illegalmode", "immrange", "branchrange", "arity", "malformed", "unclosed", "pastend", "textundef"]
 
 
 def base_program(rnd):
@@ -346,7 +346,7 @@ def main(tier):
     rep.cov["traces_validated_against_impl"] = len(jrecs)
     rep.cov["evaluations"] = len(jrecs)
     rep.cov["distinct_nontrivial"] = len({(bases[i][0], bases[i][1], jobs[i]["files"]["main.asm"], jobs[i]["files"].get("inc.asm")) for i in jobs})
-    rep.cov["rule"] = ("%d valid base programs (macro, brace scope, loop, taken .if, `.segment` block, import, far label) x 11 fault classes x 7 sites x seeded position/variant; "
+    rep.cov["rule"] = ("%d valid base programs (macro, brace scope, loop, taken .if, `.segment` block, import, far label) x 13 fault classes x 7 sites x seeded position/variant; "
                        "each built by `mos build` as a process with sentinel files in target/; distinct = distinct (class, site, project text)" % nbase)
     rep.cov["model_predicted_not_rejected"] = drift
     if drift:
